@@ -139,7 +139,7 @@ impl CallArgs {
                         if let Some(v) = args
                             .named
                             .get(&name)
-                            .or_else(|| args.positional.get(num - i))
+                            .or_else(|| get_at(&args.positional, num, i))
                         {
                             return Ok(v.clone());
                         }
@@ -156,7 +156,7 @@ impl CallArgs {
                         i += num + 1;
                     }
                     css::Value::List(items, ..) => {
-                        if let Some(v) = items.get(num - i) {
+                        if let Some(v) = get_at(&items, num, i) {
                             return Ok(v.clone());
                         }
                         i += items.len();
@@ -170,7 +170,7 @@ impl CallArgs {
                     }
                 },
                 Some(splat) => {
-                    if let Some(v) = splat.get(num - i) {
+                    if let Some(v) = get_at(splat, num, i) {
                         return v.do_evaluate(scope, true);
                     }
                     i += splat.len();
@@ -185,6 +185,11 @@ impl CallArgs {
         }
         Ok(css::Value::Null)
     }
+}
+
+/// Get the argument `num` from a slice starting at argument number `first`.
+fn get_at<T>(args: &[T], num: usize, first: usize) -> Option<&T> {
+    args.get(num.checked_sub(first)?)
 }
 
 fn is_splat(arg: &Value) -> Option<&[Value]> {
